@@ -17,6 +17,23 @@ typedef double ev_tstamp;
 /* echsd.c's static instant_to_tstamp, cut out of the working tree's echsd.c by the check */
 #include "x_instant_to_tstamp.c"
 
+static size_t unhex(const char *h, char *out, size_t max)
+{
+	size_t n = 0;
+	for (; h[0] && h[1] && n + 1 < max; h += 2) {
+		unsigned v;
+		sscanf(h, "%2x", &v);
+		out[n++] = (char)v;
+	}
+	out[n] = 0;
+	return n;
+}
+
+static void puthex(const char *s, size_t n)
+{
+	for (size_t i = 0; i < n; i++) printf("%02x", (unsigned char)s[i]);
+}
+
 static echs_instant_t rdi(const char *s)
 {
 	echs_instant_t i;
@@ -57,6 +74,35 @@ int main(void)
 			printf("%016" PRIx64 "\n", epoch_to_echs_instant((time_t)strtoll(a[1], NULL, 10)).u);
 		} else if (!strcmp(op, "i.tstamp") && n == 2) {
 			printf("%lld\n", (long long)instant_to_tstamp(rdi(a[1])));
+		} else if (!strcmp(op, "s.dtstrp") && (n == 3 || n == 2)) {
+			static char str[8192];
+			char *on = NULL;
+			size_t len;
+			memset(str, 0, 64);
+			len = n == 3 ? unhex(a[1], str, sizeof(str)) : (str[0] = 0, 0);
+			(void)len;
+			echs_instant_t r = dt_strp(str, &on, strtoul(a[n - 1], NULL, 10));
+			if (echs_nul_instant_p(r)) puts("nul");
+			else printf("%016" PRIx64 " %ld\n", r.u, on ? (long)(on - str) : -1L);
+		} else if (!strcmp(op, "s.dtstrf") && n == 2) {
+			char buf[256];
+			size_t z = dt_strf(buf, sizeof(buf), rdi(a[1]));
+			puthex(buf, z); putchar('\n');
+		} else if (!strcmp(op, "s.dtstrfical") && n == 2) {
+			char buf[256];
+			size_t z = dt_strf_ical(buf, sizeof(buf), rdi(a[1]));
+			puthex(buf, z); putchar('\n');
+		} else if (!strcmp(op, "s.idiffstrp") && (n == 2 || n == 1)) {
+			static char str[8192];
+			char *on = NULL;
+			size_t len = n == 2 ? unhex(a[1], str, sizeof(str)) : (str[0] = 0, 0);
+			echs_idiff_t d = idiff_strp(str, &on, len);
+			printf("%" PRId64 " %ld\n", d.d, on ? (long)(on - str) : -1L);
+		} else if (!strcmp(op, "s.idiffstrf") && n == 2) {
+			char buf[256];
+			echs_idiff_t d = {strtoll(a[1], NULL, 10)};
+			size_t z = idiff_strf(buf, sizeof(buf), d);
+			puthex(buf, z); putchar('\n');
 		} else {
 			puts("bad-op");
 		}
